@@ -909,6 +909,21 @@ func (fx *Fx) specCall(env *SpecEnv, e *SCall) Val {
 				idx = arg(1).T
 			}
 			return Val{T: fmt.Sprintf("(select (select %s %d) %s)", st.heap(heapName, cntSort), k, idx), S: "Int", GT: intT}
+		case "lastval":
+			// lastval(Kind, T | code("...")): the payload of the most recent event of this kind whose payload has dynamic
+			// type T (meaningful once count(Kind, T) is known to be positive)
+			kid, ok := e.Args[0].(*SIdent)
+			if !ok || evKinds[kid.Name] == 0 || len(e.Args) != 2 {
+				sfail("lastval(Kind, T)")
+			}
+			k := evKinds[kid.Name]
+			var idx string
+			if k == 1 || k == 2 || k == 4 {
+				idx = fmt.Sprint(c.typeTag(env.typeOf(sexprTypeText(e.Args[1]))))
+			} else {
+				idx = arg(1).T
+			}
+			return Val{T: fmt.Sprintf("(select (select %s %d) %s)", st.heap("LV", lvSort), k, idx), S: "Iface", GT: types.NewInterfaceType(nil, nil)}
 		case "visited":
 			// visited(N, k): key k of the map ranged over by loop N has been visited (in a completed or the current iteration)
 			n, ok := e.Args[0].(*SInt)
@@ -1164,7 +1179,7 @@ func (fx *Fx) specCall(env *SpecEnv, e *SCall) Val {
 			}
 			var parts []string
 			for _, k := range sortedKeys(c.heapSorts()) {
-				if skip[k] || k == "NC" || k == "CNT" || k == "CNC" || k == "NRT" {
+				if skip[k] || k == "NC" || k == "CNT" || k == "CNC" || k == "LV" || k == "NRT" {
 					continue
 				}
 				srt := c.heapSorts()[k]
